@@ -201,11 +201,12 @@ class SolverRun:
 
     def __init__(self, problem, r=2.0, eps=0.01, limit=200, m=10, refine=False, fault=None, listener="rec",
                  extra_listeners=(), tag="", full_snap=True, events=None, cbs=("before", "enditer", "stop"),
-                 extra_first=False, probing=False, lip=None, fmin=None):
+                 extra_first=False, probing=False, lip=None, fmin=None, params=None):
         self.tid = next(SolverRun._tid)
         self.events = events if events is not None else []
         self.rp = RecProblem(problem, fault=fault)
-        self.params = SolverParameters(eps=eps, r=r, itersLimit=limit, evolventDensity=m, refineSolution=refine)
+        # params: an existing SolverParameters object to be shared with other solvers (a legitimate use of the API)
+        self.params = params if params is not None else SolverParameters(eps=eps, r=r, itersLimit=limit, evolventDensity=m, refineSolution=refine)
         self.n = int(self.rp.numberOfFloatVariables)
         self.full_snap = full_snap
         self.flushed = 0
